@@ -546,6 +546,25 @@ def deps(expr, node, defs, _seen=None, depth=0):
                 sub = {d}
             else:
                 sub = deps(df.value, df.node, defs, _seen, depth + 1)
+            # containers filled by method calls:  x = []; x.append(e)  /  x[k] = e
+            if df.kind == "assign" and isinstance(df.value, (ast.List, ast.Dict, ast.Set)) or (
+                    df.kind == "assign" and isinstance(df.value, ast.Call) and call_name(df.value) in ("list", "dict", "set")):
+                for st_node in defs.cfg.nodes():
+                    for e in defs.cfg.own_exprs(st_node):
+                        for c in ast.walk(e):
+                            if isinstance(c, ast.Call) and isinstance(c.func, ast.Attribute) and c.func.attr in ("append", "extend", "add", "insert") \
+                                    and dotted(c.func.value) == df.var and c.args:
+                                key2 = ("fill", id(c))
+                                if key2 not in _seen:
+                                    _seen.add(key2)
+                                    sub |= {x + "[*]" for x in deps(c.args[-1], st_node, defs, _seen, depth + 1)}
+                            if isinstance(c, ast.Assign):
+                                for t in c.targets:
+                                    if isinstance(t, ast.Subscript) and dotted(t.value) == df.var:
+                                        key2 = ("fill", id(c))
+                                        if key2 not in _seen:
+                                            _seen.add(key2)
+                                            sub |= {x + "[*]" for x in deps(c.value, st_node, defs, _seen, depth + 1)}
             if df.kind in ("iter", "unpack"):
                 sub = {s + "[*]" for s in sub}
             out |= {s + suffix for s in sub} if suffix else sub
